@@ -522,3 +522,338 @@ Proof.
       * apply dhcp_inv_tick; auto.
       * apply dhcp_inv_reset. apply dhcp_inv_tick; auto.
 Qed.
+
+(* ---- dispatch ---- *)
+
+Lemma dhcp_reset_max_lease : forall s, ds_max_lease_duration (dhcp_reset s) = ds_max_lease_duration s.
+Proof. intros. unfold dhcp_reset. destruct (ds_state s); reflexivity. Qed.
+Lemma dhcp_reset_retry_config : forall s, ds_retry_config (dhcp_reset s) = ds_retry_config s.
+Proof. intros. unfold dhcp_reset. destruct (ds_state s); reflexivity. Qed.
+Lemma dhcp_reset_state : forall s, ds_state (dhcp_reset s) = Discovering 0.
+Proof. intros. unfold dhcp_reset. destruct (ds_state s); reflexivity. Qed.
+
+Lemma solicit_bound_disc : forall rc, rc_discover_timeout rc <= solicit_bound rc.
+Proof. intros. unfold solicit_bound. lia. Qed.
+
+Lemma solicit_bound_req : forall rc retry,
+  0 <= rc_initial_request_timeout rc -> 0 <= retry < rc_request_retries rc ->
+  rc_initial_request_timeout rc * 2 ^ (retry / 2) <= solicit_bound rc.
+Proof.
+  intros rc retry HT Hr. unfold solicit_bound.
+  assert (2 ^ (retry / 2) <= 2 ^ ((rc_request_retries rc - 1) / 2)).
+  { apply Z.pow_le_mono_r; [lia|]. apply Z.div_le_mono; lia. }
+  nia.
+Qed.
+
+Lemma shl_wrapped_le : forall T k r, 0 <= T -> 0 <= k -> dh_dur_shl T k = Ok r -> 0 <= r /\ r <= T * 2 ^ k.
+Proof.
+  intros T k r HT Hk H. apply dh_dur_shl_ok in H. destruct H as [-> _].
+  assert (0 <= T * 2 ^ k) by (apply Z.mul_nonneg_nonneg; [lia|apply Z.pow_nonneg; lia]).
+  split; [apply Z.mod_pos_bound; reflexivity|apply Z.mod_le; [lia|reflexivity]].
+Qed.
+
+(* the Discovering branch, on any socket value whose state field is about to be overwritten *)
+Lemma dhcp_dispatch_discovering_spec : forall ms now xid emit s0 ra s' res,
+  u64_ok (rc_discover_timeout (ds_retry_config s0)) ->
+  dhcp_dispatch_discovering ms now xid emit s0 ra = Ok (s', res) ->
+  (res = DrNone /\ s' = s0 /\ now < ra) \/
+  (exists f, res = DrErr f /\ s' = s0 /\ ra <= now /\ emit f = false /\ tx_message_type f = MtDiscover) \/
+  (exists f ra', res = DrSent f /\ ra <= now /\ emit f = true /\
+     tx_message_type f = MtDiscover /\ tx_transaction_id f = xid /\ tx_client_ip f = 0 /\
+     tx_dst_addr f = ip_BROADCAST /\
+     s' = dhcp_set_transaction_id (dhcp_set_state s0 (Discovering ra')) xid /\
+     ra' = now + dh_as_i64 (rc_discover_timeout (ds_retry_config s0)) /\
+     ra' <= now + rc_discover_timeout (ds_retry_config s0)).
+Proof.
+  intros ms now xid emit s0 ra s' res Hd H. unfold dhcp_dispatch_discovering in H.
+  destruct (now <? ra) eqn:E.
+  - inversion H; subst. left. splits; auto. lia.
+  - right. match type of H with context [emit ?f] => set (fr := f) in * end.
+    destruct (emit fr) eqn:Ee.
+    + right. inv_bind H. inversion H; subst; clear H.
+      pose proof (dh_inst_add_ok _ _ _ Hv) as Hx.
+      pose proof (dh_inst_add_le _ _ _ (proj1 Hd) Hv).
+      exists fr, v. subst fr. cbn. splits; auto; lia.
+    + left. inversion H; subst. exists fr. subst fr. cbn. splits; auto; lia.
+Qed.
+
+Lemma dhcp_inv_dispatch : forall hw s m mtu now xid emit ok s' res,
+  dhcp_inv hw s m ->
+  dhcp_dispatch mtu now xid emit s = Ok (s', res) ->
+  dhcp_inv hw s' (mon_step hw (ds_retry_config s) m (CDispatch mtu now xid ok) (RDispatch res)).
+Proof.
+  intros hw s m mtu now xid emit ok s' res Hinv H.
+  pose proof Hinv as [I1 [I2 [I3 [I4 I5]]]].
+  pose proof I3 as [T1 [T2 [T3 [T4 T5]]]].
+  unfold dhcp_dispatch in H. inv_bind H. rename v into ms.
+  (* result of the Discovering branch started from a socket s0 with the same settings as s *)
+  assert (Hdisc : forall s0 ra,
+            ds_max_lease_duration s0 = ds_max_lease_duration s -> ds_retry_config s0 = ds_retry_config s ->
+            ds_state s0 = Discovering ra -> ra <= Z.max (m_clock m) (m_deadline m) ->
+            dhcp_dispatch_discovering ms now xid emit s0 ra = Ok (s', res) ->
+            dhcp_inv hw s' (mon_step hw (ds_retry_config s) m (CDispatch mtu now xid ok) (RDispatch res))).
+  { intros s0 ra E1 E2 E3 Hra Hd.
+    apply dhcp_dispatch_discovering_spec in Hd; [|rewrite E2; auto].
+    destruct Hd as [[-> [-> Hlt]] | [[f [-> [-> _]]] | [f [ra' [-> [Hle [_ [Hmt [_ [_ [_ [-> [_ Hra']]]]]]]]]]]]].
+    - cbn [mon_step]. unfold dhcp_inv, mon_tick. cbn. rewrite E1, E2, E3. splits; auto; lia.
+    - cbn [mon_step]. unfold dhcp_inv, mon_tick. cbn. rewrite E1, E2, E3. splits; auto; lia.
+    - cbn [mon_step]. rewrite Hmt. unfold dhcp_inv, mon_tick. cbn. rewrite E1, E2. splits; auto; try lia.
+      rewrite E2 in Hra'. pose proof (solicit_bound_disc (ds_retry_config s)). lia. }
+  destruct (ds_state s) as [ra0 | ra0 retry server rip | cfg ra0 rb0 rbg e0] eqn:Est.
+  - (* Discovering *)
+    eapply Hdisc; eauto.
+  - (* Requesting *)
+    destruct I5 as [J1 [J2 J3]].
+    destruct (now <? ra0) eqn:Enow.
+    { inversion H; subst. cbn [mon_step]. apply dhcp_inv_tick; auto. }
+    destruct (rc_request_retries (ds_retry_config s) <=? retry) eqn:Eex.
+    { apply (Hdisc (dhcp_reset s) 0);
+        [apply dhcp_reset_max_lease | apply dhcp_reset_retry_config | apply dhcp_reset_state | lia | exact H]. }
+    match type of H with context [emit ?f] => set (fr := f) in * end.
+    destruct (emit fr) eqn:Ee.
+    + inv_bind H. inv_bind H. destruct (65535 <? retry + 1) eqn:Eov; [discriminate|].
+      inversion H; subst; clear H. subst fr. cbn [mon_step tx_message_type tx_transaction_id].
+      apply shl_wrapped_le in Hv0; [|unfold u64_ok in T2; lia|apply Z.div_pos; lia].
+      pose proof (dh_inst_add_le _ _ _ (proj1 Hv0) Hv1) as Hle.
+      pose proof (solicit_bound_req (ds_retry_config s) retry ltac:(unfold u64_ok in T2; lia) ltac:(lia)) as Hb.
+      unfold dhcp_inv, mon_tick. cbn. splits; auto; try lia.
+    + inversion H; subst. cbn [mon_step]. apply dhcp_inv_tick; auto.
+  - (* Renewing *)
+    destruct I5 as [J1 [t0 [r0 [l0 [J2 [J3 [J4 [J5 [J6 J7]]]]]]]]].
+    destruct (e0 <=? now) eqn:Eexp.
+    { apply (Hdisc (dhcp_reset s) 0);
+        [apply dhcp_reset_max_lease | apply dhcp_reset_retry_config | apply dhcp_reset_state | lia | exact H]. }
+    destruct ((now <? ra0) || (rbg && (now <? rb0))) eqn:Ewait.
+    { inversion H; subst. cbn [mon_step]. apply dhcp_inv_tick; auto. }
+    match type of H with context [emit ?f] => set (fr := f) in * end.
+    destruct (emit fr) eqn:Ee.
+    + destruct (rbg || (rb0 <=? now)) eqn:Erb.
+      * inv_bind H. inv_bind H. inversion H; subst; clear H. subst fr.
+        cbn [mon_step tx_message_type tx_transaction_id].
+        unfold dhcp_inv, mon_tick. cbn. splits; auto; try lia.
+        exists t0, r0, l0. splits; auto. discriminate.
+      * apply orb_false_iff in Erb. destruct Erb as [-> Erb].
+        inv_bind H. inv_bind H. inversion H; subst; clear H. subst fr.
+        cbn [mon_step tx_message_type tx_transaction_id].
+        apply dh_inst_sub_ok in Hv0. destruct Hv0 as [-> Hd].
+        specialize (J7 eq_refl). destruct J7 as [J7 J8].
+        assert (Hab : Z.abs (rb0 - now) = rb0 - now) by lia. rewrite Hab in *.
+        set (w := Z.min (Z.min (Z.max (rc_min_renew_timeout (ds_retry_config s)) ((rb0 - now) / 2)) (rb0 - now))
+                        (rc_max_renew_timeout (ds_retry_config s))) in *.
+        assert (Hw : 0 <= w <= rb0 - now) by (unfold u64_ok in *; subst w; lia).
+        apply dh_inst_add_exact in Hv1; [|unfold dh_I64_MAX in *; lia].
+        unfold dhcp_inv, mon_tick. cbn. splits; auto; try lia.
+        exists t0, r0, l0. splits; auto; try lia.
+    + inversion H; subst. cbn [mon_step].
+      unfold dhcp_inv, mon_tick. cbn. splits; auto; try lia.
+      exists t0, r0, l0. splits; auto. intros Hf. apply orb_false_iff in Hf. destruct Hf as [-> _]. auto.
+Qed.
+
+(* ---- every call, every history ---- *)
+
+Lemma dhcp_inv_step : forall hw s m c s' ret,
+  dhcp_inv hw s m -> call_typed c -> dhcp_call_step hw s c = Ok (s', ret) ->
+  dhcp_inv hw s' (mon_step hw (ds_retry_config s) m c ret).
+Proof.
+  intros hw s m c s' ret Hinv Hty H. destruct c; cbn [dhcp_call_step] in H.
+  - inv_bind H. inversion H; subst. eapply dhcp_inv_process; eauto.
+  - inv_bind H. destruct v as [s1 r1]. inversion H; subst. cbn [fst snd]. eapply dhcp_inv_dispatch; eauto.
+  - destruct (dhcp_poll s) as [s1 e] eqn:Ep. inversion H; subst. cbn [mon_step].
+    unfold dhcp_poll in Ep. destruct Hinv as [I1 [I2 [I3 [I4 I5]]]].
+    destruct (negb (ds_config_changed s)); [inversion Ep; subst; unfold dhcp_inv; auto|].
+    destruct (ds_state s) eqn:Est; inversion Ep; subst; unfold dhcp_inv; cbn; rewrite Est; auto.
+  - inversion H; subst. cbn [mon_step]. apply dhcp_inv_reset; auto.
+  - inversion H; subst. cbn [mon_step]. destruct Hinv as [I1 [I2 [I3 [I4 I5]]]]. unfold dhcp_inv. cbn. auto.
+  - inversion H; subst. cbn [mon_step]. destruct Hinv as [I1 [I2 [I3 [I4 I5]]]]. unfold dhcp_inv. cbn.
+    splits; auto. intros x Hx. subst m0. cbn in Hty. unfold u64_ok in Hty. lia.
+  - inversion H; subst. cbn [mon_step]. destruct Hinv as [I1 [I2 [I3 [I4 I5]]]]. unfold dhcp_inv. cbn. auto.
+  - inversion H; subst. cbn [mon_step]. destruct Hinv as [I1 [I2 [I3 [I4 I5]]]]. unfold dhcp_inv. cbn. auto.
+  - inversion H; subst. cbn [mon_step]. destruct Hinv as [I1 [I2 [I3 [I4 I5]]]]. unfold dhcp_inv. cbn. auto.
+Qed.
+
+Lemma dhcp_inv_step_total : forall hw sm c,
+  dhcp_inv hw (fst sm) (snd sm) -> call_typed c ->
+  dhcp_inv hw (fst (dhcp_step_total hw sm c)) (snd (dhcp_step_total hw sm c)).
+Proof.
+  intros hw [s m] c Hinv Hty. unfold dhcp_step_total. cbn [fst snd] in *.
+  destruct (dhcp_call_step hw s c) as [[s' ret]| |] eqn:E; cbn [fst snd]; auto.
+  eapply dhcp_inv_step; eauto.
+Qed.
+
+(* the invariant holds after EVERY history of calls (any arguments within their Rust types) *)
+Theorem dhcp_inv_run : forall hw calls, Forall call_typed calls ->
+  dhcp_inv hw (fst (dhcp_run hw calls)) (snd (dhcp_run hw calls)).
+Proof.
+  intros hw calls. induction calls as [|c calls IH] using rev_ind; intros Hty.
+  - apply dhcp_inv_init.
+  - rewrite dhcp_run_snoc. apply Forall_app in Hty. destruct Hty as [H1 H2].
+    apply dhcp_inv_step_total; auto. inversion H2; auto.
+Qed.
+
+(* ------------------------------------------------------------------------------------------------ *)
+(** * what the monitor fields mean in terms of the history *)
+
+Section LastOccurrence.
+  Variable C A : Type.
+  Variable upd : list C -> C -> option A.     (* what call c contributes when made after history pre *)
+  Variable v : list C -> option A.
+  Hypothesis v_nil : v [] = None.
+  Hypothesis v_snoc : forall l c, v (l ++ [c]) = match upd l c with Some a => Some a | None => v l end.
+
+  Lemma last_occurrence : forall l a, v l = Some a ->
+    exists l1 c l2, l = l1 ++ c :: l2 /\ upd l1 c = Some a /\
+      forall x c' y, l2 = x ++ c' :: y -> upd (l1 ++ c :: x) c' = None.
+  Proof.
+    induction l as [|c l IH] using rev_ind; intros a H.
+    - rewrite v_nil in H. discriminate.
+    - rewrite v_snoc in H. destruct (upd l c) as [a'|] eqn:E.
+      + inversion H; subst. exists l, c, []. splits; auto.
+        intros x c' y Hxy. destruct x; discriminate.
+      + destruct (IH a H) as [l1 [c0 [l2 [-> [Hu Hlater]]]]].
+        exists l1, c0, (l2 ++ [c]). splits; auto.
+        * rewrite <- app_assoc. reflexivity.
+        * intros x c' y Hxy.
+          destruct y as [|y0 y'] using rev_ind.
+          -- apply app_inj_tail in Hxy. destruct Hxy as [-> ->].
+             exact E.
+          -- clear IHy'. rewrite app_comm_cons, app_assoc in Hxy. apply app_inj_tail in Hxy.
+             destruct Hxy as [Hl2 _]. eapply Hlater; eauto.
+  Qed.
+End LastOccurrence.
+
+(* Some xid iff call c, made after history pre, puts a DHCPREQUEST with that xid on the wire *)
+Definition request_sent_by (hw : Z) (pre : list dhcp_call) (c : dhcp_call) : option Z :=
+  match dhcp_call_step hw (fst (dhcp_run hw pre)) c with
+  | Ok (_, RDispatch (DrSent f)) =>
+      match tx_message_type f with MtRequest => Some (tx_transaction_id f) | _ => None end
+  | _ => None
+  end.
+
+(* Some (t, r, l) iff call c, made after history pre, hands the socket (at time t) a DHCPACK r that satisfies every
+   clause of the property; l = min(lease of r or default, max_lease setting) *)
+Definition ack_received_by (hw : Z) (pre : list dhcp_call) (c : dhcp_call) : option (Z * dhcp_repr * Z) :=
+  match c with
+  | CProcess now _ _ _ (Some r) =>
+      match dhcp_call_step hw (fst (dhcp_run hw pre)) c with
+      | Ok _ => if ack_valid hw (m_last_req (snd (dhcp_run hw pre))) r
+                then Some (now, r, dhcp_lease_duration r (m_max_lease (snd (dhcp_run hw pre))))
+                else None
+      | _ => None
+      end
+  | _ => None
+  end.
+
+Lemma m_last_req_snoc : forall hw l c,
+  m_last_req (snd (dhcp_run hw (l ++ [c]))) =
+  match request_sent_by hw l c with Some a => Some a | None => m_last_req (snd (dhcp_run hw l)) end.
+Proof.
+  intros hw l c. rewrite dhcp_run_snoc. unfold request_sent_by, dhcp_step_total.
+  destruct (dhcp_run hw l) as [s m]. cbn [fst snd].
+  destruct (dhcp_call_step hw s c) as [[s' ret]| |] eqn:E; cbn [fst snd]; auto.
+  destruct c; cbn [dhcp_call_step] in E.
+  - inv_bind E. inversion E; subst. cbn. destruct parsed; cbn; auto. destruct (ack_valid _ _ _); reflexivity.
+  - inv_bind E. inversion E; subst. cbn [mon_step]. destruct (snd v) as [|f|f]; cbn; auto.
+    destruct (tx_message_type f); reflexivity.
+  - destruct (dhcp_poll s). inversion E; subst. reflexivity.
+  - inversion E; subst. reflexivity.
+  - inversion E; subst. reflexivity.
+  - inversion E; subst. reflexivity.
+  - inversion E; subst. reflexivity.
+  - inversion E; subst. reflexivity.
+  - inversion E; subst. reflexivity.
+Qed.
+
+Lemma m_ack_snoc : forall hw l c,
+  m_ack (snd (dhcp_run hw (l ++ [c]))) =
+  match ack_received_by hw l c with Some a => Some a | None => m_ack (snd (dhcp_run hw l)) end.
+Proof.
+  intros hw l c. rewrite dhcp_run_snoc. unfold ack_received_by, dhcp_step_total.
+  destruct (dhcp_run hw l) as [s m]. cbn [fst snd].
+  destruct (dhcp_call_step hw s c) as [[s' ret]| |] eqn:E; cbn [fst snd].
+  2,3: destruct c; auto; destruct parsed; auto.
+  destruct c; cbn [dhcp_call_step] in E.
+  - inv_bind E. inversion E; subst. cbn. destruct parsed; cbn; auto. destruct (ack_valid _ _ _); reflexivity.
+  - inv_bind E. inversion E; subst. cbn [mon_step]. destruct (snd v) as [|f|f]; cbn; auto.
+  - destruct (dhcp_poll s). inversion E; subst. reflexivity.
+  - inversion E; subst. reflexivity.
+  - inversion E; subst. reflexivity.
+  - inversion E; subst. reflexivity.
+  - inversion E; subst. reflexivity.
+  - inversion E; subst. reflexivity.
+  - inversion E; subst. reflexivity.
+Qed.
+
+Definition ack_clauses (hw : Z) (r : dhcp_repr) : Prop :=
+  r_message_type r = MtAck /\
+  r_client_hardware_address r = hw /\
+  (exists sid, r_server_identifier r = Some sid) /\
+  (exists mask p, r_subnet_mask r = Some mask /\ 0 <= p <= 32 /\ mask = ip_netmask p) /\
+  ip_x_is_unicast (r_your_ip r) = true.
+
+Lemma ack_content_ok_clauses : forall hw r, ack_content_ok hw r = true <-> ack_clauses hw r.
+Proof.
+  intros hw r. unfold ack_content_ok, ack_clauses. split.
+  - rewrite !andb_true_iff. intros [[[[H1 H2] H3] H4] H5].
+    destruct (r_message_type r); try discriminate. apply Z.eqb_eq in H2.
+    destruct (r_server_identifier r) as [sid|]; [|discriminate].
+    destruct (r_subnet_mask r) as [mask|]; [|discriminate].
+    destruct (ip_prefix_len mask) as [p|] eqn:Ep; [|discriminate].
+    apply ip_prefix_len_some in Ep. destruct Ep as [Ep1 Ep2]. splits; eauto.
+  - intros [H1 [H2 [[sid H3] [[mask [p [H4 [H5 H6]]]] H7]]]].
+    rewrite H1, H2, H3, H4, H7, Z.eqb_refl. subst mask.
+    destruct (ip_prefix_len (ip_netmask p)) eqn:E; [reflexivity|].
+    exfalso. eapply ip_prefix_len_netmask; eauto.
+Qed.
+
+Lemma ack_received_by_spec : forall hw pre c t r l,
+  ack_received_by hw pre c = Some (t, r, l) ->
+  (exists src sp dp, c = CProcess t src sp dp (Some r)) /\
+  ack_clauses hw r /\
+  m_last_req (snd (dhcp_run hw pre)) = Some (r_transaction_id r) /\
+  l = dhcp_lease_duration r (m_max_lease (snd (dhcp_run hw pre))).
+Proof.
+  intros hw pre c t r l H. unfold ack_received_by in H.
+  destruct c; try discriminate. destruct parsed as [r'|]; [|discriminate].
+  destruct (dhcp_call_step _ _ _); try discriminate.
+  destruct (ack_valid hw (m_last_req (snd (dhcp_run hw pre))) r') eqn:E; [|discriminate].
+  inversion H; subst. apply ack_valid_content in E. destruct E as [E1 E2].
+  splits; eauto. apply ack_content_ok_clauses; auto.
+Qed.
+
+(* ------------------------------------------------------------------------------------------------ *)
+(** * configured_only_by_valid_ack *)
+
+Theorem c18_configured_only_by_valid_ack : forall hw calls, Forall call_typed calls ->
+  forall c pk, snd (dhcp_poll (fst (dhcp_run hw calls))) = Some (EvConfigured c pk) ->
+  exists calls1 calls2 t src sp dp r l,
+    (* the reported configuration is that of a DHCPACK r handed to the socket at time t ... *)
+    calls = calls1 ++ CProcess t src sp dp (Some r) :: calls2 /\
+    ack_received_by hw calls1 (CProcess t src sp dp (Some r)) = Some (t, r, l) /\
+    cfg_from_ack c r /\
+    (* ... own hardware address, server identifier, contiguous mask, unicast address ... *)
+    ack_clauses hw r /\
+    (* ... received after a REQUEST was transmitted, the most recent of which carried r's transaction id ... *)
+    (exists calls0 d calls01, calls1 = calls0 ++ d :: calls01 /\
+        request_sent_by hw calls0 d = Some (r_transaction_id r) /\
+        forall x d' y, calls01 = x ++ d' :: y -> request_sent_by hw (calls0 ++ d :: x) d' = None) /\
+    (* ... and no later call handed the socket another such ACK *)
+    (forall x d' y, calls2 = x ++ d' :: y ->
+        ack_received_by hw (calls1 ++ CProcess t src sp dp (Some r) :: x) d' = None).
+Proof.
+  intros hw calls Hty c pk Hp.
+  pose proof (dhcp_inv_run hw calls Hty) as Hinv.
+  destruct (dhcp_run hw calls) as [s m] eqn:Erun. cbn [fst snd] in *.
+  unfold dhcp_poll in Hp. destruct (negb (ds_config_changed s)); [discriminate|].
+  destruct Hinv as [_ [_ [_ [_ I5]]]].
+  destruct (ds_state s) as [| |cfg ra rb rbg e] eqn:Est; cbn in Hp; try discriminate.
+  inversion Hp; subst; clear Hp.
+  destruct I5 as [J1 [t [r [l [J2 [J3 [J4 _]]]]]]].
+  assert (Hm : m_ack (snd (dhcp_run hw calls)) = Some (t, r, l)) by (rewrite Erun; exact J2).
+  apply (last_occurrence _ _ (ack_received_by hw) (fun l => m_ack (snd (dhcp_run hw l)))) in Hm;
+    [|reflexivity|apply m_ack_snoc].
+  destruct Hm as [calls1 [c0 [calls2 [Hc [Hu Hlater]]]]].
+  pose proof (ack_received_by_spec _ _ _ _ _ _ Hu) as [[src [sp [dp ->]]] [Hcl [Hreq Hl]]].
+  apply (last_occurrence _ _ (request_sent_by hw) (fun l => m_last_req (snd (dhcp_run hw l)))) in Hreq;
+    [|reflexivity|apply m_last_req_snoc].
+  exists calls1, calls2, t, src, sp, dp, r, l. splits; auto.
+Qed.
